@@ -78,18 +78,25 @@ func runC13(c *core.Ctx) {
 			}
 			a.check(okOld && len(newD) == 1 && newD[0] == "new(oracles.lastTSO)", fname(setLast)+" CAS(last, current)", ci, "", fmt.Sprint("CAS operands are not (loaded value, new record): ", oldD, newD))
 			// compared tso is the tso of exactly the loaded value passed as `old`
-			ifs := ifsOn(setLast, core.PCmp(tokLEQ, core.AnyV, core.AnyV))
+			// any spelling of the ordering test (<=, !(<), swapped operands): one operand is a field of the loaded record
 			okCmp := false
-			for _, ifi := range ifs {
-				v, _ := core.CondOf(ifi)
-				b := v.(*ssa.BinOp)
-				ld, ok1 := core.Strip(b.Y).(*ssa.UnOp)
-				if ok1 {
-					if fa, ok := ld.X.(*ssa.FieldAddr); ok && fa.X == args[1] {
-						okCmp = true
+			core.Instrs(setLast, func(in ssa.Instruction) {
+				ifi, ok := in.(*ssa.If)
+				if !ok {
+					return
+				}
+				x, y, _, isOrd := lessForm(ifi.Cond)
+				if !isOrd {
+					return
+				}
+				for _, opnd := range []ssa.Value{x, y} {
+					if ld, ok := core.Strip(opnd).(*ssa.UnOp); ok {
+						if fa, ok := ld.X.(*ssa.FieldAddr); ok && fa.X == args[1] {
+							okCmp = true
+						}
 					}
 				}
-			}
+			})
 			a.check(okCmp, fname(setLast)+" compares with the value it swaps out", ci, "", "the monotonicity test reads a different value than the one handed to CompareAndSwap")
 			// retry on failure: CAS=false must not reach a return without another Load
 			pCAS := core.PTrue(func(v ssa.Value) bool { return v == ci.(ssa.Value) })
@@ -203,13 +210,12 @@ func runC13(c *core.Ctx) {
 		pv.CallArgs = true
 		var expB, expS, untB, untS string
 		for _, r := range returnsOf(isExp) {
-			if b, ok := r.Results[0].(*ssa.BinOp); ok {
-				if b.Op == tokGEQ {
-					expB, expS = strings.Join(pv.Desc(b.X), "|"), strings.Join(pv.Desc(b.Y), "|")
-				} else if b.Op == tokLEQ {
-					expB, expS = strings.Join(pv.Desc(b.Y), "|"), strings.Join(pv.Desc(b.X), "|")
+			if x, y, neg, ok := lessForm(r.Results[0]); ok {
+				// expired ⇔ ¬(physical(last) < physical(lock)+TTL)
+				if neg {
+					expB, expS = strings.Join(pv.Desc(x), "|"), strings.Join(pv.Desc(y), "|")
 				} else {
-					a.viol(fname(isExp)+" comparison", r, "IsExpired is not `physical(lastTS) >= physical(lockTS)+TTL` (operator "+b.Op.String()+"): it disagrees with UntilExpired <= 0 at the boundary")
+					a.viol(fname(isExp)+" comparison", r, "IsExpired is not `physical(lastTS) >= physical(lockTS)+TTL` (it is a strict comparison the other way round): it disagrees with UntilExpired <= 0 at the boundary")
 				}
 			} else if cst, ok := asConst(r.Results[0]); ok {
 				a.check(cst.Value.String() == "true", fname(isExp)+" without cached ts", r, "expired", "IsExpired answers `not expired` when no timestamp is cached while UntilExpired answers 0 (expired)")
